@@ -296,6 +296,41 @@ func c16NilResults(id string, n, fixedPool int, random bool) core.Scenario {
 		for i := range list {
 			list[i] = i
 		}
+		// result types of size zero (for-each style struct{}, [0]int): nothing to compare but count, length and return
+		for _, zs := range []string{"struct{}", "[0]int"} {
+			var appliedZ atomic.Int32
+			doneZ := make(chan struct{})
+			var pvZ any
+			var lenZ int
+			go func() {
+				defer close(doneZ)
+				pvZ, _ = core.Catch(func() {
+					opt := &fpgo.PMapOption{FixedPool: fixedPool, RandomOrder: random}
+					if zs == "struct{}" {
+						lenZ = len(fpgo.PMap(func(x int) struct{} { appliedZ.Add(1); return struct{}{} }, opt, list...))
+					} else {
+						lenZ = len(fpgo.PMap(func(x int) [0]int { appliedZ.Add(1); return [0]int{} }, opt, list...))
+					}
+				})
+			}()
+			vz, dumpZ := core.AwaitOrStuck(doneZ, 2*time.Second, 60*time.Second, func() int64 { return int64(appliedZ.Load()) })
+			if vz == "stuck" {
+				c.Violationf("PMap:does-not-return", map[string]any{"scenario": id, "goroutines": core.RepoGoroutineSummary(dumpZ)}, "PMap with the zero-size result type %s never returned", zs)
+				return
+			}
+			if vz != "done" {
+				c.Inconclusive("watchdog in " + id)
+				return
+			}
+			if pvZ != nil {
+				c.Violationf("PMap:panic:"+core.NormalizePanic(fmt.Sprint(pvZ)), rep, "PMap(len %d, FixedPool %d, RandomOrder %v) with the zero-size result type %s panics: %v", n, fixedPool, random, zs, pvZ)
+				return
+			}
+			if lenZ != n || int(appliedZ.Load()) != n {
+				c.Violationf("PMap:nil-results", rep, "PMap with the zero-size result type %s returned %d results for %d elements, f applied %d times", zs, lenZ, n, appliedZ.Load())
+				return
+			}
+		}
 		for _, kind := range []string{"error", "any"} {
 			var applied atomic.Int32
 			done := make(chan struct{})
@@ -440,7 +475,7 @@ func init() {
 		Meta: func(c *core.Ctx) core.Meta {
 			return core.Meta{
 				Level:       "exploration",
-				Rule:        "list lengths {0,1,2,3,5,8,13,21,34,64} (+7 more in thorough) and long lists {1030,1100,2100,5000} (thorough up to 70000) with pools {1,2,4,7,64,n/2,n,0} x FixedPool in {-1,0,1,2,len-1,len,len+1,1000} and no option x {ordered, RandomOrder} x 5 duration profiles (uniform, decreasing with the index so that completion order reverses, one very slow first element, PRNG yields, sleeps); f is the monitor: per-element atomic call counters (unique elements), a concurrency gauge whose maximum is compared with min(FixedPool, len), result compared with the harness' own map (permutation for RandomOrder), gauge must be 0 when PMap returns; termination by the stuck detector; interface result types with nil results; caller slices with spare capacity holding non-elements; nested use (f itself calls PMap; 300..1100 outer workers (thorough 5000), or several concurrent outer calls); one *PMapOption value reused across sequences of calls with lists of lengths {5,0,64,1,40,0,0,33,2,48} (bound per call from the FixedPool the caller wrote); repeated in the -race build (deciding: result assembly must be race-free). distinct_nontrivial = distinct scenarios",
+				Rule:        "list lengths {0,1,2,3,5,8,13,21,34,64} (+7 more in thorough) and long lists {1030,1100,2100,5000} (thorough up to 70000) with pools {1,2,4,7,64,n/2,n,0} x FixedPool in {-1,0,1,2,len-1,len,len+1,1000} and no option x {ordered, RandomOrder} x 5 duration profiles (uniform, decreasing with the index so that completion order reverses, one very slow first element, PRNG yields, sleeps); f is the monitor: per-element atomic call counters (unique elements), a concurrency gauge whose maximum is compared with min(FixedPool, len), result compared with the harness' own map (permutation for RandomOrder), gauge must be 0 when PMap returns; termination by the stuck detector; interface result types with nil results; zero-size result types (struct{}, [0]int); caller slices with spare capacity holding non-elements; nested use (f itself calls PMap; 300..1100 outer workers (thorough 5000), or several concurrent outer calls); one *PMapOption value reused across sequences of calls with lists of lengths {5,0,64,1,40,0,0,33,2,48} (bound per call from the FixedPool the caller wrote); repeated in the -race build (deciding: result assembly must be race-free). distinct_nontrivial = distinct scenarios",
 				Assumptions: []string{"FixedPool <= 0 or absent means len(list) goroutines", "the stuck verdict needs: no return, no hook progress for 2 s and no library goroutine running/runnable/sleeping in two successive dumps"},
 			}
 		},
